@@ -38,16 +38,17 @@ QUICK = [
     fam('coll', 2, 0, ['int', 'string'], bin=['pair', 'or'], un=['option', 'list', 'set'], maps=['map', 'big_map']),
     fam('keys', 2, 1, ['nat'], bin=['pair', 'or'], un=['set'], maps=['map'], fields=['a']),
 ]
-THOROUGH = [
-    fam('rec', 2, 4, ['int', 'string'], bin=['pair'], fields=['a', 'int_1', 'string_3'], types=['a', 'b']),
+THOROUGH = [      # sizes (types): 9k 11k 16k 18k 4k 14k 3k 7k 2k 1k
+    fam('rec4', 2, 4, ['int'], bin=['pair'], fields=['a', 'int_1', 'int_2'], types=['a']),
+    fam('rec2', 2, 2, ['int', 'string'], bin=['pair'], fields=['a', 'int_1', 'string_3'], types=['a', 'b']),
     fam('rec3', 3, 2, ['int'], bin=['pair'], fields=['a', 'int_1', 'int_2'], types=['a']),
-    fam('sum', 2, 3, ['int', 'unit'], bin=['or'], fields=['a', 'int_1', 'unit_2'], types=['a'], ep=5),
-    fam('sum3', 3, 2, ['int', 'unit'], bin=['or'], fields=['a', 'int_1'], ep=9),
-    fam('mix', 2, 2, ['int', 'unit', 'bool'], bin=['pair', 'or'], un=['option'], fields=['a', 'int_1'], types=['a'], ep=7),
-    fam('mix3', 3, 0, ['int', 'unit'], bin=['pair', 'or'], un=['option'], ep=50),
-    fam('coll', 2, 1, ['int', 'string', 'bytes'], bin=['pair', 'or'], un=['option', 'list', 'set'], maps=['map', 'big_map'], fields=['a'], types=['a']),
-    fam('keys', 2, 2, ['nat', 'bool'], bin=['pair', 'or'], un=['set', 'option'], maps=['map', 'big_map'], fields=['a', 'nat_1'], types=['a']),
-    fam('opt3', 3, 1, ['int', 'unit'], bin=['pair'], un=['option', 'list'], fields=['a']),
+    fam('sum', 2, 3, ['int', 'unit'], bin=['or'], fields=['a', 'int_1'], types=['a'], ep=8),
+    fam('sum3', 3, 2, ['int'], bin=['or'], fields=['a', 'int_1'], ep=4),
+    fam('mix', 2, 2, ['int', 'unit'], bin=['pair', 'or'], un=['option'], fields=['a', 'int_1'], ep=10),
+    fam('mix3', 3, 0, ['int'], bin=['pair', 'or'], un=['option'], ep=10),
+    fam('coll', 2, 1, ['int', 'bytes'], bin=['pair', 'or'], un=['option', 'list', 'set'], maps=['map', 'big_map'], fields=['a']),
+    fam('keys', 2, 2, ['nat'], bin=['pair', 'or'], un=['set', 'option'], maps=['map'], fields=['a', 'nat_1']),
+    fam('opt3', 3, 1, ['int'], bin=['pair'], un=['option'], fields=['a']),
 ]
 
 
